@@ -163,6 +163,23 @@ def enumerate_cases(tier, seed):
             dis = [names2[1]] if len(names2) > 1 else []
             cases.append({"fam": "m", "spec": _pipe_spec(sub, nm, dis), "steps": 2 if mode != "calibration" else 1,
                           "ctor": "py", "debug": False, "mode": mode})
+    # family f: an ABANDONED traversal of a model group, then a normal run on the same objects: (a) a run in which the
+    # j-th model fails at step s (every model x step of a 2 x 3 pipeline), (b) a partial look at a group (next(iter(g)),
+    # any(...), a loop left with break); the following run must execute every enabled model of every step
+    for j in range(6):
+        for step in range(2):
+            for debug in (False, True):
+                cases.append({"fam": "f", "pre": ["fail", j, step], "debug": debug, "mode": "abandoned", "ctor": "py",
+                              "steps": 2})
+    # family yb: YAML documents written by hand with the boolean spellings of YAML 1.1 (what `yaml.safe_load` resolves):
+    # the flag of a model / a boolean argument means what the document says, or the document is refused
+    for sp, val in BOOL_SPELLINGS:
+        for steps in (1, 2):
+            cases.append({"fam": "yb", "spelling": sp, "value": val, "steps": steps, "mode": "yaml-bool", "ctor": "yaml",
+                          "debug": False})
+    for g in range(2):
+        for how in ("next", "any", "break", "len-list"):
+            cases.append({"fam": "f", "pre": ["peek", g, how], "debug": False, "mode": "abandoned", "ctor": "py", "steps": 2})
     return cases
 
 
@@ -221,6 +238,97 @@ def yaml_text(spec, steps, seed, mode="exposure"):
             lst.append(d)
         doc["pipeline"][g] = lst
     return yaml.safe_dump(doc, sort_keys=False)
+
+
+BOOL_SPELLINGS = [("no", False), ("No", False), ("NO", False), ("off", False), ("Off", False), ("OFF", False),
+                  ("false", False), ("False", False), ("FALSE", False), ("yes", True), ("Yes", True), ("on", True),
+                  ("ON", True), ("true", True), ("True", True), ("TRUE", True)]
+
+
+def run_yaml_bool(case):
+    """family yb: see enumerate_cases"""
+    import pyxel
+
+    seed = int(os.environ.get("VERIF_SEED", "0") or 0)
+    viol = []
+    sp, val, steps = case["spelling"], case["value"], case["steps"]
+    base = yaml_text(_pipe_spec([]), steps, seed)
+    head = base[: base.index("pipeline:")]
+    text = head + (
+        "pipeline:\n"
+        "  photon_collection:\n"
+        f"    - {{name: first, func: vp.probes.rec, enabled: true, arguments: {{flag: {sp}}}}}\n"
+        f"    - {{name: flagged, func: vp.probes.rec, enabled: {sp}, arguments: {{a: 1}}}}\n"
+        "  charge_collection:\n"
+        "    - {name: last, func: vp.probes.rec, enabled: true}\n")
+    probes.reset()
+    try:
+        cfg = pyxel.loads(text)
+        pyxel.run_mode(cfg.running_mode, cfg.detector, cfg.pipeline)
+    except Exception as e:  # noqa: BLE001
+        # refusing the spelling loudly is legitimate
+        return {"viol": viol, "sig": cfgx.sig(["yb", sp, "refused", type(e).__name__]), "nontrivial": True, "n": 1,
+                "outcome": "refused"}
+    got = [(t["name"], t["step"], t["kw"]) for t in probes.TRACE]
+    exp = []
+    for s_ in range(steps):
+        exp.append(("first", s_, probes.tagged({"flag": val})))
+        if val:
+            exp.append(("flagged", s_, probes.tagged({"a": 1})))
+        exp.append(("last", s_, probes.tagged({})))
+    if got != exp:
+        code = "arguments" if [g[:2] for g in got] == [e[:2] for e in exp] else "disabled-ran" if not val else "enabled-skipped"
+        viol.append(({"fam": "yb", "code": code, "value": val},
+                     f"YAML document with the boolean written as '{sp}' (enabled flag of model 'flagged', argument 'flag' of "
+                     f"model 'first'): executed {got}, the document says {exp}"))
+    return {"viol": viol, "sig": cfgx.sig(["yb", sp, [e[:2] for e in exp]]), "nontrivial": True, "n": len(got),
+            "outcome": [g[:2] for g in got][:8]}
+
+
+def run_abandoned(case):
+    """family f: see enumerate_cases"""
+    import pyxel
+
+    viol = []
+    groups = ["photon_collection", "charge_collection"]
+    names = [[f"fm{3 * gi + j}" for j in range(3)] for gi in range(2)]
+    det = mk.detector("ccd", 2, 3)
+    pipe = mk.pipeline({g: [("vp.probes.rec", n, {"a": int(n[2:])}, True) for n in names[gi]] for gi, g in enumerate(groups)})
+    kind, x, y = case["pre"]
+    probes.reset()
+    if kind == "fail":
+        probes.FAULT.update({"name": f"fm{x}", "step": y, "exc": "ValueError", "msg": "BOOM-C01"})
+        try:
+            pyxel.run_mode(mk.exposure([1.0, 2.0]), det, pipe, debug=case["debug"])
+            viol.append(({"fam": "f", "code": "fault-not-raised"}, f"the run with a failing model fm{x} at step {y} raised nothing"))
+        except Exception:  # noqa: BLE001
+            pass
+        finally:
+            probes.FAULT.clear()
+    else:
+        grp = getattr(pipe, groups[x])
+        if y == "next":
+            next(iter(grp))
+        elif y == "any":
+            any(m.name == names[x][1] for m in grp)
+        elif y == "break":
+            for m in grp:
+                if m.name == names[x][1]:
+                    break
+        else:
+            list(grp)
+    probes.reset()
+    exp = [(n, s) for s in range(2) for gi in range(2) for n in names[gi]]
+    try:
+        pyxel.run_mode(mk.exposure([1.0, 2.0]), det, pipe, debug=case["debug"])
+        got = [(t["name"], t["step"]) for t in probes.TRACE]
+    except Exception as e:  # noqa: BLE001
+        got = f"raised {type(e).__name__}: {str(e)[:200]}"
+    if got != exp:
+        viol.append(({"fam": "f", "code": "order", "pre": kind, "debug": case["debug"]},
+                     f"[abandoned traversal {case['pre']}, debug={case['debug']}] the following run executed {got}, expected {exp}"))
+    return {"viol": viol, "sig": cfgx.sig(["f", case["pre"], case["debug"]]), "nontrivial": True, "n": 2,
+            "outcome": {"pre": case["pre"]}}
 
 
 def run_history(case):
@@ -493,6 +601,10 @@ def run_case(case):
 
     if case["fam"] == "e":
         return run_history(case)
+    if case["fam"] == "f":
+        return run_abandoned(case)
+    if case["fam"] == "yb":
+        return run_yaml_bool(case)
     if case["fam"] == "s":
         return run_shared(case)
     if case["fam"] == "y":
